@@ -137,6 +137,24 @@ def check(ctx, rep):
                len(ft) == 1 and ft[0].lineno > withs[0].end_lineno,
                'fix_temporaries runs before the COMMON values are stored back: the restored strings count as temporaries and the first expression of the chained program deletes one',
                ctx.where(ft[0]) if ft else ctx.where(ch))
+    # flags and values travel through the reset path by position: no call there passes two of the callee's own
+    # parameter names in each other's places (preserve_base / preserve_deftype look alike and are both bool)
+    from ..argnames import swapped_calls
+    seen_, swapped = swapped_calls(ctx, ['pcbasic/basic/implementation.py', 'pcbasic/basic/memory/', 'pcbasic/basic/interpreter.py', 'pcbasic/basic/program.py'])
+    for fn_, call_, callee_, params_ in swapped:
+        rep.ob('reset.arguments-in-parameter-order', '%s: %s' % (qualname(fn_).split(':')[1], short(call_, 60)), False,
+               'the callee is declared %s(%s): the named values arrive in each other\'s parameters' % (callee_.name, ', '.join(params_)), ctx.where(call_))
+    rep.ob('reset.arguments-in-parameter-order', 'no call in the reset path swaps like-named arguments (%d calls with two or more name arguments)' % seen_, not swapped)
+    rep.floor('reset.arguments-in-parameter-order', seen_, 40, 'calls examined')
+    # COMMON A, A() names a scalar and an array: the collector must keep the two kinds apart by the bracket flag of
+    # each declaration, not key the declarations by name
+    acv = ctx.fn(INTERP + ':Interpreter._add_common_vars')
+    cv = [a for a in own_nodes(acv) if isinstance(a, ast.Assign) and norm(a.targets[0]) == 'common_vars']
+    keyed = [a for a in cv if isinstance(a.value, (ast.Dict, ast.DictComp)) or (isinstance(a.value, ast.Call) and norm(a.value.func) in ('dict', 'OrderedDict'))]
+    ups = [c for c in own_nodes(acv) if isinstance(c, ast.Call) and norm(c.func) in ('common_scalars.update', 'common_arrays.update')]
+    flt = sorted((norm(c.func), norm(g.ifs[0]) if g.ifs else '') for c in ups for x in c.args if isinstance(x, (ast.GeneratorExp, ast.ListComp, ast.SetComp)) for g in x.generators)
+    rep.ob('commons.scalar-and-array-of-one-name', 'COMMON declarations are split by their bracket flag, one entry per declaration (a scalar and an array may share a name)',
+           not keyed and flt == [('common_arrays.update', 'brackets'), ('common_scalars.update', 'not brackets')], 'declarations keyed by name: %s; filters %s' % (bool(keyed), flt), ctx.where(acv))
     pc = ctx.fn(MEMORY + ':DataSegment.preserve_commons')
     ys = [n for n in own_nodes(pc) if isinstance(n, ast.Expr) and isinstance(n.value, ast.Yield)]
     rep.ob('commons.single-yield', 'preserve_commons yields once', len(ys) == 1, '', ctx.where(pc))
@@ -175,6 +193,8 @@ def variants(ctx):
         return lambda tree: f(mu.find_def(tree, path_fn))
 
     return [
+        Va('clear-flags-swapped', 'break', IMPL,
+           in_fn('Implementation._clear_all', lambda fn: mu.replace_expr(fn, mu.text_is('self.memory.clear(preserve_base, preserve_deftype)'), 'self.memory.clear(preserve_deftype, preserve_base)')), expect='reset.arguments'),
         Va('chain-fixes-temporaries-too-early', 'break', IMPL, in_fn('Implementation.chain_', _fix_first), expect='chain.temporaries'),
         Va('clear-all-keeps-rnd', 'break', IMPL, in_fn('Implementation._clear_all', lambda fn: mu.remove_stmt(fn, mu.text_is('self.randomiser.clear()'))), expect='random'),
         Va('clear-all-keeps-functions', 'break', IMPL,
